@@ -85,7 +85,7 @@ class _Buf:
 # ------------------------------------------------------------------------------------------------
 # openQCD reweighting factors (ms1.dat / rwms.dat)
 # ------------------------------------------------------------------------------------------------
-def encode_rwms(version, nfct, nsrc, records):
+def encode_rwms(version, nfct, nsrc, records, array='quad8'):
     """records: [(nc, sqn, lnr)] or, for version 2.0, [(nc, sqn, lnr, sqn_lo, lnr_lo)];
     sqn[i][j][s], lnr[i][j][s]: reweighting factor i, Hasenbusch factor j, source s.
 
@@ -94,6 +94,9 @@ def encode_rwms(version, nfct, nsrc, records):
     2.0: int 2*nrw; int nfct[nrw]; int nsrc[nrw]; int 0;
          record: int nc; per i: array(sqn), array(lnr) with array = int d=2; int n[2] = (nfct, 2*nsrc); int size=8;
          double data[nfct][nsrc][2] (quadruple precision numbers as (hi, lo) pairs)
+    array (2.0 only) selects other encodings the generic array format of openQCD 2.0 allows (used for rejection / option rows):
+         'size16'  n = (nfct, nsrc), size = 16 (one (hi, lo) pair per element);  'int4'  size = 4, integer data (rounded lnr, lo = 0);
+         'size2'   an element size the format does not know;  'dim3'  a three-dimensional array
     """
     nrw = len(nsrc)
     b = _Buf()
@@ -123,13 +126,23 @@ def encode_rwms(version, nfct, nsrc, records):
                 for which, lab in ((1, 'sqn'), (2, 'lnr')):
                     hi = np.asarray(rec[which][i], dtype=float).reshape(nfct[i], nsrc[i])
                     lo = np.asarray(rec[which + 2][i], dtype=float).reshape(nfct[i], nsrc[i])
-                    b.put(struct.pack('<i', 2), lab + ':d', ir)
-                    b.put(struct.pack('<2i', nfct[i], 2 * nsrc[i]), lab + ':n', ir)
-                    b.put(struct.pack('<i', 8), lab + ':size', ir)
                     inter = np.empty((nfct[i], nsrc[i], 2))
                     inter[:, :, 0] = hi
                     inter[:, :, 1] = lo
-                    b.put(inter.astype('<f8').tobytes(), lab + ':%d' % i, ir)
+                    if array == 'dim3':
+                        b.put(struct.pack('<i', 3), lab + ':d', ir)
+                        b.put(struct.pack('<3i', nfct[i], nsrc[i], 2), lab + ':n', ir)
+                    else:
+                        b.put(struct.pack('<i', 2), lab + ':d', ir)
+                        b.put(struct.pack('<2i', nfct[i], nsrc[i] if array == 'size16' else 2 * nsrc[i]), lab + ':n', ir)
+                    b.put(struct.pack('<i', {'quad8': 8, 'dim3': 8, 'size16': 16, 'int4': 4, 'size2': 2}[array]), lab + ':size', ir)
+                    if array == 'int4':
+                        inter[:, :, 1] = 0
+                        b.put(np.rint(inter).astype('<i4').tobytes(), lab + ':%d' % i, ir)
+                    elif array == 'size2':
+                        b.put(np.rint(inter).astype('<i2').tobytes(), lab + ':%d' % i, ir)
+                    else:
+                        b.put(inter.astype('<f8').tobytes(), lab + ':%d' % i, ir)
             else:
                 for j in range(nfct[i]):
                     b.put(np.asarray(rec[1][i][j], dtype='<f8').tobytes(), 'sqn:%d:%d' % (i, j), ir)
@@ -432,7 +445,7 @@ def parse_sfcf_text(text):
     return chunks
 
 
-def write_sfcf_set(root, layout, prefix, table, blocks_of, names, header=None):
+def write_sfcf_set(root, layout, prefix, table, blocks_of, names, header=None, rep_sep='r'):
     """Write a synthetic sfcf file set below `root` (must exist).
 
     table: {rep -> [cfg, ...]} (order = order of appearance in appended files)
@@ -448,7 +461,7 @@ def write_sfcf_set(root, layout, prefix, table, blocks_of, names, header=None):
     if header:
         hdr0.update(header)
     for rep, cfgs in table.items():
-        rdir = '%s_r%d' % (prefix, rep)
+        rdir = '%s_%s%d' % (prefix, rep_sep, rep)
         if layout in ('o', 'c'):
             os.makedirs(os.path.join(root, rdir))
         if layout == 'o':
@@ -643,6 +656,21 @@ def write_npr_file(path, kind, entries, p_in, p_out=None):
             else:
                 info.attrs['gammaA'] = np.array([lab[0].encode()])
                 info.attrs['gammaB'] = np.array([lab[1].encode()])
+
+
+# ------------------------------------------------------------------------------------------------
+# Hadrons FlowObservables (extract_t0_hd5):  <stem>.<cfg>.h5
+#   /FlowObservables/FlowObservables_<k>/data  double[n]; attribute description = ["..."];  k = 0 holds the flow times
+# ------------------------------------------------------------------------------------------------
+def write_flowobs_file(path, entries):
+    """entries: [(description, 1-d array)]; entry 0 = flow times."""
+    import h5py
+    with h5py.File(path, 'w') as f:
+        g = f.create_group('FlowObservables')
+        for k, (desc, arr) in enumerate(entries):
+            e = g.create_group('FlowObservables_%d' % k)
+            e.create_dataset('data', data=np.asarray(arr, dtype='<f8'))
+            e.attrs['description'] = np.array([desc.encode()])
 
 
 # ------------------------------------------------------------------------------------------------
